@@ -135,11 +135,52 @@ def _run_job(args):
         else:
             out.setdefault("exc_unconfirmed", []).append(ex)
     out["confirmed"].extend(exc_confirmed)
+    out["xcheck"] = _second_solver(core.XQUERIES)
     missing = [t for t in job.expect_tags if t not in out["tags"]]
     out["missing_tags"] = missing
     out["wall_s"] = time.time() - t0
     del out["candidates"]
     return out
+
+
+def _second_solver(queries, tlimit_ms=10000):
+    """every exported query was answered unsat by z3; ask the cvc5 binary (different code base) the same question.
+    sat -> disagreement (the check becomes inconclusive); unknown / timeout / unsupported construct -> counted, not judged"""
+    import shutil
+    import subprocess
+    import tempfile
+
+    res = dict(solver=None, queries=len(queries), agree=0, unknown=0, disagree=[], secs=0.0)
+    exe = shutil.which("cvc5")
+    if exe is None or not queries:
+        return res
+    res["solver"] = "cvc5 (binary on PATH)"
+    t0 = time.time()
+    for label, txt in queries:
+        # 'exp' is a reserved symbol in cvc5: the uninterpreted stand-in gets its own name
+        txt = re.sub(r"(?<![A-Za-z0-9_!.])exp(?![A-Za-z0-9_!.])", "uf_exp", txt)
+        fd, path = tempfile.mkstemp(suffix=".smt2")
+        try:
+            with os.fdopen(fd, "w") as f:
+                f.write("(set-logic ALL)\n" + txt)
+            try:
+                r = subprocess.run([exe, "--tlimit=%d" % tlimit_ms, path], capture_output=True, text=True, timeout=tlimit_ms / 1000 + 10)
+                lines = [l.strip() for l in r.stdout.splitlines() if l.strip()]
+                ans = lines[0] if lines else ""
+                if "(error" in r.stdout or "(error" in r.stderr or "rror" in r.stderr:
+                    ans = "unknown"
+            except subprocess.TimeoutExpired:
+                ans = "unknown"
+        finally:
+            os.unlink(path)
+        if ans == "unsat":
+            res["agree"] += 1
+        elif ans == "sat":
+            res["disagree"].append(label)
+        else:
+            res["unknown"] += 1
+    res["secs"] = round(time.time() - t0, 2)
+    return res
 
 
 def _job_to_file(args, path):
@@ -267,6 +308,7 @@ def report(pid, tier, seed, mod, outs, wall, verbose=False, partial=False):
     violations, known_hits = [], []
     tot = dict(paths=0, decisions=0, obligations=0, unsat=0, validated=0, diverged=0, checks=0, solver_s=0.0, aborts=0)
     samples, functions, bounds, tags = [], set(), {}, {}
+    xtot = dict(solver=None, queries=0, agree=0, unknown=0, disagree=0, secs=0.0)
     for o in outs:
         if "crashed" in o:
             inconclusive.append("job %s crashed: %s" % (o["job"], o["crashed"].strip().splitlines()[-1]))
@@ -302,6 +344,14 @@ def report(pid, tier, seed, mod, outs, wall, verbose=False, partial=False):
             inconclusive.append("job %s: counterexample for %s did not reproduce on the implementation (%s)" % (o["job"], u["label"], (u.get("detail") or "")[:120]))
         for u in o.get("exc_unconfirmed", [])[:3]:
             inconclusive.append("job %s: exception on symbolic path not reproduced concretely: %s | %s" % (o["job"], u["exc"][:200], (u.get("detail") or "")[:200]))
+        xc = o.get("xcheck") or {}
+        for k in ("queries", "agree", "unknown"):
+            xtot[k] += xc.get(k, 0)
+        xtot["secs"] += xc.get("secs", 0.0)
+        xtot["solver"] = xc.get("solver") or xtot["solver"]
+        for lab in xc.get("disagree", []):
+            xtot["disagree"] += 1
+            inconclusive.append("job %s: second solver (cvc5) answers sat where z3 answered unsat on %s" % (o["job"], lab))
         for v in o["val_failed"][:3]:
             inconclusive.append("job %s: engine/implementation disagreement: %s" % (o["job"], v["detail"][:300]))
         if o["validated"] == 0 and o["paths"] - o["aborts"] > 0 and o.get("bounds", {}).get("_validate", True):
@@ -355,6 +405,7 @@ def report(pid, tier, seed, mod, outs, wall, verbose=False, partial=False):
             explanation=getattr(mod, "EXPLANATION", ""),
             functions_encoded=sorted(functions), bounds=bounds,
             queries=tot["checks"], solver_s=round(tot["solver_s"], 2),
+            second_solver=dict(xtot, secs=round(xtot["secs"], 2), what="a sample of the queries z3 discharged (first of every obligation kind per job) re-asked to cvc5 as SMT-LIB2 text; 'unknown' includes time-outs (10 s) and constructs cvc5 rejects"),
             paths_diverged_in_replay=tot["diverged"],
             reachability_witnesses=tags,
             jobs=[dict(job=o["job"], paths=o.get("paths"), obligations=o.get("obligations"), unsat=o.get("unsat"),
@@ -372,8 +423,8 @@ def report(pid, tier, seed, mod, outs, wall, verbose=False, partial=False):
         ev["coverage"]["transitions"] = 1
     if not partial:
         json.dump(ev, open(os.path.join(OUT, "evidence", pid + ".json"), "w"), indent=1, default=str)
-    print("%s tier=%s: jobs=%d paths=%d obligations=%d discharged=%d validated_on_impl=%d queries=%d solver_s=%.1f wall_s=%.1f -> %s" % (
-        pid, tier, len(outs), tot["paths"], tot["obligations"], tot["unsat"], tot["validated"], tot["checks"], tot["solver_s"], wall,
+    print("%s tier=%s: jobs=%d paths=%d obligations=%d discharged=%d validated_on_impl=%d queries=%d solver_s=%.1f cvc5_recheck=%d/%d(unknown %d) wall_s=%.1f -> %s" % (
+        pid, tier, len(outs), tot["paths"], tot["obligations"], tot["unsat"], tot["validated"], tot["checks"], tot["solver_s"], xtot["agree"], xtot["queries"], xtot["unknown"], wall,
         ev["coverage"]["verdict"]))
     if verbose:
         for o in outs:
